@@ -314,6 +314,9 @@ type vec struct {
 	Names  bool   `json:"names"`
 	Keep   []int  `json:"keep"`
 	Ttls   []int  `json:"ttls"`
+	Q2     []int  `json:"q2"`
+	Keep2  []int  `json:"keep2"`
+	Ttls2  []int  `json:"ttls2"`
 	Shape  int    `json:"shape"`
 	Owners []hx.B `json:"owners"`
 	Oct    int    `json:"oct"`
@@ -474,6 +477,84 @@ func (rp *replayer) pairsU(in *inst, vecs []*vec, useName, useVal, ua, ub bool) 
 				if ab && bc && !ac {
 					rp.sum.Mis("isduplicate/not-transitive:"+kn, in.kind.Name+": IsDuplicate(a,b), IsDuplicate(b,c) but not IsDuplicate(a,c)", rp.caseOf(in, v))
 				}
+			}
+		}
+	}
+}
+
+// judgeDedup compares one Dedup result with the vector: "" or what is wrong.
+func judgeDedup(out, orig []dns.RR, keep, ttls []int) string {
+	if len(out) != len(keep) {
+		return "count"
+	}
+	for k := range out {
+		if out[k] != orig[keep[k]-1] {
+			return "order-or-identity"
+		}
+		if out[k].Header().Ttl != uint32(ttls[k]) {
+			return "ttl"
+		}
+	}
+	return ""
+}
+
+// seqs: two Dedup calls in a row -- scratch map nil both times, a fresh map each time, ONE map
+// for both calls.  Each result must be what Dup.tla says for that call's argument alone, and
+// the second call must leave the first result alone.
+func (rp *replayer) seqs(in *inst, vecs []*vec, hasName, hasVal bool) {
+	kn := keyName(in.kind.Name)
+	for _, v := range vecs {
+		if v.Kind != "seq" || v.Names != hasName {
+			continue
+		}
+		for _, mode := range []string{"nil-map", "fresh-maps", "reused-map"} {
+			mkList := func(q []int) []dns.RR {
+				l := make([]dns.RR, len(q))
+				for i, s := range q {
+					l[i] = in.symbol(s, hasName, hasVal)
+				}
+				return l
+			}
+			l1, l2 := mkList(v.Q), mkList(v.Q2)
+			o1, o2 := append([]dns.RR(nil), l1...), append([]dns.RR(nil), l2...)
+			var m1, m2 map[string]dns.RR
+			switch mode {
+			case "fresh-maps":
+				m1, m2 = map[string]dns.RR{}, map[string]dns.RR{}
+			case "reused-map":
+				m1 = map[string]dns.RR{}
+				m2 = m1
+			}
+			out1 := dns.Dedup(l1, m1)
+			bad1 := judgeDedup(out1, o1, v.Keep, v.Ttls)
+			out2 := dns.Dedup(l2, m2)
+			bad2 := judgeDedup(out2, o2, v.Keep2, v.Ttls2)
+			after := judgeDedup(out1, o1, v.Keep, v.Ttls) // the earlier result, looked at again
+			rp.sum.Evaluations += 2
+			rp.seen[kn+"/dedup-seq/"+mode+"/"+strconv.Itoa(len(out1))+","+strconv.Itoa(len(out2))] = true
+			first := "after-a-call-that-removed-duplicates"
+			if len(v.Keep) == len(v.Q) {
+				first = "after-an-all-distinct-call"
+			}
+			c := rp.caseOf(in, v)
+			what := fmt.Sprintf("%s, %s: Dedup(%v) then Dedup(%v): ", in.kind.Name, mode, v.Q, v.Q2)
+			if bad1 != "" {
+				rp.sum.Mis("dedup/"+bad1+":"+kn, what+"first result wrong ("+bad1+")", c)
+				continue
+			}
+			if bad2 != "" {
+				key := "dedup/" + bad2 + ":second-call:" + mode + ":" + kn
+				if mode == "reused-map" {
+					key = "dedup/reused-map:" + first + ":" + bad2
+				}
+				rp.sum.Mis(key, what+fmt.Sprintf("second result wrong (%s): %d records, Dup.tla keeps %v with TTLs %v", bad2, len(out2), v.Keep2, v.Ttls2), c)
+			}
+			if after != "" {
+				key := "dedup/earlier-result-changed:" + mode + ":" + kn
+				if mode == "reused-map" {
+					key = "dedup/reused-map:" + first + ":earlier-result-" + after
+				}
+				rp.sum.Mis(key, what+"the second call changed the first call's result ("+after+")", c)
 			}
 		}
 	}
@@ -644,6 +725,7 @@ func replay(path string, shard, nshards int, only string) {
 			in := &inst{kind: k, namePath: vecs[0].NameP, valPath: vecs[0].ValP}
 			rp.pairsU(in, vecs, in.namePath != "", in.valPath != "", vecs[0].UA, vecs[0].UB)
 			rp.lists(in, vecs, in.namePath != "", in.valPath != "")
+			rp.seqs(in, vecs, in.namePath != "", in.valPath != "")
 			rp.octets(k, names, vecs)
 			continue
 		}
@@ -709,6 +791,7 @@ func replay(path string, shard, nshards int, only string) {
 		}
 		if k.Type != dns.TypeOPT { // the TTL of an OPT is not a TTL
 			rp.lists(listInst, vecs, listInst.namePath != "", listInst.valPath != "")
+			rp.seqs(listInst, vecs, listInst.namePath != "", listInst.valPath != "")
 		}
 		rp.octets(k, names, vecs)
 	}
@@ -759,8 +842,8 @@ type event struct {
 	Never  bool      `json:"never"`  // IsDuplicate(x, x') is false already for the kind's unmodified record
 	Repack bool      `json:"repack"` // the decoded record a packs again
 	Mut    string    `json:"mut,omitempty"`
-	List   []textRec `json:"list,omitempty"`
-	Out    []outRec  `json:"out,omitempty"`
+	List   []textRec `json:"list"`
+	Out    []outRec  `json:"out"`
 }
 
 // spans finds the embedded names of the RDATA: replacing a name field by the root
@@ -1002,49 +1085,77 @@ func record(out string, n int) {
 		if p.k.Type == dns.TypeOPT {
 			continue
 		}
-		m := 2 + rng.Intn(6)
+		// one call, or two calls in a row over records of the same kind; the scratch map is nil,
+		// fresh for each call, or one map for both
 		shape := rng.Intn(2 * len(ownerShapes))
 		if shape >= len(ownerShapes) {
 			shape = 0
 		}
-		list := make([]dns.RR, m)
-		var texts []textRec
-		for j := range list {
-			if j > 0 && rng.Intn(5) == 0 { // the very same value once more
-				k := rng.Intn(j)
-				list[j] = list[k]
-				texts = append(texts, texts[k])
-				continue
-			}
-			a := randAbs(p, rng)
-			a[0] = 1
-			rr := in.make(a)
-			if shape > 0 {
-				rr.Header().Name = ownerShapes[shape][map[int]int{'a': 0, 'A': 1, 'b': 2}[a[2]]]
-			}
-			rr.Header().Ttl = []uint32{0, 1, 300, 3600, 0x7fffffff, 0x80000000, 0xffffffff, uint32(rng.Intn(100000))}[rng.Intn(8)]
-			list[j] = rr
-			h := rr.Header()
-			texts = append(texts, textRec{O: hx.FromString(h.Name), C: int(h.Class), T: int(h.Rrtype),
-				Rd: hx.FromString(rdataText(rr.String())), Ttl: limbs(h.Ttl)})
+		calls := 1 + rng.Intn(2)
+		mapMode := []string{"nil-map", "nil-map", "fresh-maps", "reused-map", "reused-map"}[rng.Intn(5)]
+		var shared map[string]dns.RR
+		if mapMode == "reused-map" {
+			shared = map[string]dns.RR{}
 		}
-		orig := append([]dns.RR(nil), list...)
-		res := dns.Dedup(list, nil)
-		e := &event{Ev: "dedup", K: p.k.Name, List: texts, Out: []outRec{}}
-		for _, r := range res {
-			idx := 0
-			for j := range orig {
-				if orig[j] == r { // a value that occurs several times is named by its first position
-					idx = j + 1
-					break
+		hist := mapMode + ":first-use"
+		var earlier []dns.RR // the result of the first call: the second list may hold some of these very values
+		for call := 0; call < calls; call++ {
+			m := 1 + rng.Intn(6)
+			list := make([]dns.RR, m)
+			for j := range list {
+				if j > 0 && rng.Intn(5) == 0 { // the very same value once more
+					list[j] = list[rng.Intn(j)]
+					continue
 				}
+				if len(earlier) > 0 && rng.Intn(4) == 0 {
+					list[j] = earlier[rng.Intn(len(earlier))]
+					continue
+				}
+				a := randAbs(p, rng)
+				a[0] = 1
+				rr := in.make(a)
+				if shape > 0 {
+					rr.Header().Name = ownerShapes[shape][map[int]int{'a': 0, 'A': 1, 'b': 2}[a[2]]]
+				}
+				rr.Header().Ttl = []uint32{0, 1, 300, 3600, 0x7fffffff, 0x80000000, 0xffffffff, uint32(rng.Intn(100000))}[rng.Intn(8)]
+				list[j] = rr
 			}
-			e.Out = append(e.Out, outRec{I: idx, Ttl: limbs(r.Header().Ttl)})
+			texts := make([]textRec, m) // the argument as it is right before the call
+			for j, rr := range list {
+				h := rr.Header()
+				texts[j] = textRec{O: hx.FromString(h.Name), C: int(h.Class), T: int(h.Rrtype),
+					Rd: hx.FromString(rdataText(rr.String())), Ttl: limbs(h.Ttl)}
+			}
+			orig := append([]dns.RR(nil), list...)
+			var mm map[string]dns.RR
+			switch mapMode {
+			case "fresh-maps":
+				mm = map[string]dns.RR{}
+			case "reused-map":
+				mm = shared
+			}
+			res := dns.Dedup(list, mm)
+			e := &event{Ev: "dedup", K: p.k.Name, Rel: hist, List: texts, Out: []outRec{}}
+			for _, r := range res {
+				idx := 0
+				for j := range orig {
+					if orig[j] == r { // a value that occurs several times is named by its first position
+						idx = j + 1
+						break
+					}
+				}
+				e.Out = append(e.Out, outRec{I: idx, Ttl: limbs(r.Header().Ttl)})
+			}
+			sum.Evaluations++
+			seen[p.k.Name+"/dedup/"+hist+"/"+strconv.Itoa(m)+">"+strconv.Itoa(len(res))] = true
+			e.I = w.N + 1
+			w.Emit(e)
+			hist = mapMode + ":after-a-call-that-removed-duplicates"
+			if len(res) == m {
+				hist = mapMode + ":after-an-all-distinct-call"
+			}
+			earlier = append([]dns.RR(nil), res...)
 		}
-		sum.Evaluations++
-		seen[p.k.Name+"/dedup/"+strconv.Itoa(m)+">"+strconv.Itoa(len(res))] = true
-		e.I = w.N + 1
-		w.Emit(e)
 	}
 	w.Close()
 	sum.Nontrivial = len(seen)
